@@ -300,7 +300,7 @@ pub fn assumptions(prop: &str) -> Vec<String> {
     ];
     if prop == "C11" {
         v.push("tier A's stream stub reproduces std's contract as measured on rustc 1.95 on this image (line-buffered stdout, panic on write error, tail flushed at exit with errors ignored, EBADF is silent success); tier B (real children) keeps it honest and any fault-free disagreement is a violation".to_string());
-        v.push("tier B covers Linux, pipes, /dev/full, closed descriptors and a pipe without reader; no tty, so the colour-detection path of the dull-color variant always answers 'no colour'; argc = 0 and write errors in mid-stream exist in tier A only".to_string());
+        v.push("tier B covers Linux, pipes, /dev/full, closed descriptors, a pipe without reader and a pseudo terminal on one of the two streams (never both: a colour build colours its output there by design); argc = 0 and write errors in mid-stream exist in tier A only".to_string());
         v.push("definitions in this corpus keep the default max_width of 100 where monochrome() and print_message() must agree".to_string());
     }
     if prop == "C18" {
